@@ -204,7 +204,7 @@ def run(ctx):
     ctx.rule = ("E-enum over width alphabet W={a,e-acute(2 octets),euro(3),emoji(4),SP,TAB,CR,U+0301,U+3099}: (i) all lines a^p.w.b^s, "
                 f"p in 0..160, w in W^<={j}, s in {TAILS_Q}; (ii) all periodic lines a^p.(w)^r, w in W^1..{m}, p in 0..3, "
                 f">=165 octets; (iii) a^p.w.b^s (w in W^<={jc}) as property value, parameter value and ALTREP+DESCRIPTION "
-                "of an event inside a calendar; (vi) short property names x k repetitions (k <= 40/80) of one character or a two-character unit of every width through the component path; (iv)/(v) the same shapes with words over W + {U+FEFF, U+2028, VT, U+0085, NUL, FS, and the boundary code points U+007F/0080/07FF/0800/FFFF/10000/10FFFF} containing at least one of these; (vii) words of <=2/3 characters over 14 joiner / variation-selector / combining / bidi / tag characters (U+200D, U+200C, U+FE0F, ...) and 8 real grapheme clusters (ZWJ family, flag, keycap, conjunct, skin tone, tag flag) at every alignment p in 0..160; (viii) a^p.c.bbb for EVERY Unicode scalar value c except LF (all 1,112,063, both tiers) x p in 70..75, i.e. every position of c relative to the octet budget. non-trivial = the line was actually folded.")
+                "of an event inside a calendar; (vi) short property names x k repetitions (k <= 40/80) of one character or a two-character unit of every width through the component path; (iv)/(v) the same shapes with words over W + {U+FEFF, U+2028, VT, U+0085, NUL, FS, and the boundary code points U+007F/0080/07FF/0800/FFFF/10000/10FFFF} containing at least one of these; (vii) words of <=2/3 characters over 14 joiner / variation-selector / combining / bidi / tag characters (U+200D, U+200C, U+FE0F, ...) and 8 real grapheme clusters (ZWJ family, flag, keycap, conjunct, skin tone, tag flag) at every alignment p in 0..160; (ix) lines of every length 140..459 and of 1000..150000 characters (2000+ folds) over 7 units; (viii) a^p.c.bbb for EVERY Unicode scalar value c except LF (all 1,112,063, both tiers) x p in 70..75, i.e. every position of c relative to the octet budget. non-trivial = the line was actually folded.")
     ctx.bounds = {"alphabet": [repr(c) for c in W], "prefix_len": "0..160", "w_len_i": j, "w_len_ii": m,
                   "tails": list(TAILS_Q), "limit": LIMIT}
     ctx.assumptions += ["lines contain no LF (the library asserts this; statement quantifies over lines without LF)",
@@ -283,6 +283,19 @@ def run(ctx):
             yield ("blk", b)
 
     ctx.explore("viii:every-scalar-value-at-the-fold-point", gen_all, run_block)
+    def gen_longlines():
+        # very long lines: thousands of folds (a fold routine that keeps state per fold, recurses or counts the physical
+        # lines in advance shows only here); every length in a band around multiples of 74/75 and a few huge ones
+        units = ("a", "\u00e9", "\u20ac", "\U0001F600", "ab \u00e9", " ", "a\t")
+        for unit in units:
+            for n in list(range(140, 460)) + [1000, 2219, 2220, 2221, 5549, 5550, 5551, 5552, 8000, 20000, 74000, 150000]:
+                reps = -(-n // len(unit))
+                yield ("per", 0, unit, reps)
+                if n >= 1000:
+                    yield ("pws", n, "\u00e9", 0)       # ASCII all the way, one non-ASCII character at the very end
+                    yield ("pws", 0, "\u00e9", n)       # ... and at the very start
+
+    ctx.explore("ix:very-long-lines", gen_longlines, run_line, limit=60.0)
     ctx.explore("vi:short-names-x-homogeneous-values", gen_short, run_component)
     ctx.explore("vii:joiners-and-grapheme-clusters", gen_j, lambda case: run_component(case) if case[0] == "comp" else run_line(case))
     ctx.explore("iv:special-characters", gen_x, run_line)
